@@ -10,7 +10,23 @@ from ..report import Ob
 def r_heads(prog, tier):
     obs = []
     f = prog.func('transformconst', 'get_headpos_by_rule')
+    # the rule interpreter may have been moved into a helper: follow the one call that passes the arguments on
+    hops = 0
+    while hops < 3 and not any(isinstance(n, ast.For) for n in walk_own(f.node)):
+        nxt = None
+        for n in walk_own(f.node):
+            if isinstance(n, ast.Call):
+                c = prog.callee(n, f)
+                if c and c[0] == 'transformconst' and len(n.args) >= 3 \
+                        and [unparse(a) for a in n.args[:3]] == f.params[:3]:
+                    nxt = prog.func(c[0], c[1])
+        if nxt is None:
+            break
+        f = nxt
+        hops += 1
     cfg = f.cfg
+    if len(f.params) < 3:
+        raise AnalysisError('get_headpos_by_rule: parameters (parent, children, rules) not found')
     plab, clab, rules = f.params[0], f.params[1], f.params[2]
     # ---- representation of the tables: Dict[str, List[Tuple[Dir, space separated list]]]
     for tbl in ('HEAD_RULES_PTB', 'HEAD_RULES_NEGRA'):
